@@ -105,6 +105,7 @@ pub fn roomy_cfg(rng: &mut Rng, flavor: Flavor) -> Cfg {
         recipe: 0,
         decoy: false,
         reentrant_cb: false,
+        tracing_on: false,
     }
 }
 
@@ -359,6 +360,9 @@ pub struct PProfile {
     pub get_mut_heavy: bool,
     /// async flavour on per-task executors only; % of removes / waits whose future is cancelled
     pub cancel_pct: u64,
+    /// every handle is dropped the moment the clients are done - no quiescence first, so items
+    /// may still be buffered
+    pub drop_busy: bool,
     /// % of lookups during whose hold the same client calls close()
     pub hold_close_pct: u64,
     /// % of lookups during whose hold the same client calls max_cost()/update_max_cost()
@@ -401,6 +405,7 @@ impl Default for PProfile {
             same_shard: false,
             get_mut_heavy: false,
             cancel_pct: 0,
+            drop_busy: false,
             hold_close_pct: 0,
             hold_umc_pct: 0,
         }
@@ -668,7 +673,12 @@ pub fn gen_p_family(prop: &str, seed: u64, pf: &PProfile) -> Plan {
     if has_clear {
         tags.push("clear".into());
     }
-    let finale = {
+    if pf.drop_busy {
+        tags.push("drop_busy".into());
+    }
+    let finale = if pf.drop_busy {
+        Finale::DropAll
+    } else {
         let r = rng.below(100);
         if r < pf.finale_close_pct {
             Finale::Close
@@ -1153,6 +1163,11 @@ pub fn gen_plan(prop: &str, seed: u64, variant: u64) -> Plan {
         p.cfg.decoy = true;
         p.tags.push("decoy_cache".into());
     }
+    // a tracing subscriber that enables everything (process-global environment the library reads)
+    if variant % 6 == 2 {
+        p.cfg.tracing_on = true;
+        p.tags.push("tracing_subscriber".into());
+    }
     // callbacks that call back into their own cache
     if matches!(prop, "C01" | "C03" | "C04" | "C05" | "C06" | "C08" | "C10" | "C11" | "C17") && variant % 5 == 1 && p.finale != Finale::DropAll {
         p.cfg.reentrant_cb = true;
@@ -1174,6 +1189,8 @@ fn gen_plan_inner(prop: &str, seed: u64, variant: u64) -> Plan {
         "C13" | "C15" if variant % 97 == 5 => gen_hot(prop, seed),
         // cancellation: futures of remove()/wait() dropped at their await point (full buffer,
         // stalled processor); every value must still leave through exactly one callback
+        // the last handle goes while accepted items are still buffered (processor held back)
+        "C08" if variant % 23 == 7 => gen_p_family(prop, seed, &PProfile { clients: (1, 3), keys: (3, 8), ops: (4, 16), remove_pct: 5, lookup_pct: 5, wait_pct: 0, if_present_pct: 0, over_capacity_pct: 30, collide_pct: 0, chaos_clear_pct: 0, ttl_pct: 10, faulty_pct: 100, barrier_every: (20, 30), sleeps: false, drop_busy: true, ..PProfile::default() }),
         "C08" if variant % 29 == 13 => gen_p_family(prop, seed, &PProfile { clients: (2, 3), keys: (2, 5), ops: (10, 30), remove_pct: 35, lookup_pct: 8, wait_pct: 6, if_present_pct: 3, small_buffer_pct: 100, cancel_pct: 60, faulty_pct: 100, over_capacity_pct: 30, collide_pct: 0, chaos_clear_pct: 0, ttl_pct: 10, sleeps: false, ..PProfile::default() }),
         // more client threads than any striping constant inside the library (25 metric stripes)
         "C17" if variant % 61 == 9 => gen_p_family(prop, seed, &PProfile { clients: (26, 34), keys: (2, 6), ops: (4, 10), barrier_every: (2, 4), lookup_pct: 65, remove_pct: 4, if_present_pct: 3, wait_pct: 0, metrics_on: true, over_capacity_pct: 30, collide_pct: 0, faulty_pct: 10, sleeps: false, ..PProfile::default() }),
